@@ -6,7 +6,7 @@ CONSTANTS
   CloseOn = "first"
   CtxGen = FALSE
   ContinueOnCtx = FALSE
-  LoopChecksCtx = TRUE
+  LoopChecksCtx = FALSE
 INVARIANTS EofComplete
 PROPERTIES Settles
 CHECK_DEADLOCK FALSE
